@@ -36,18 +36,31 @@ type c17bScenario struct {
 	StateID  string   `json:"state_id"` // id the stored state was written under
 	IDs      []string `json:"ids"`
 	RootOff  int64    `json:"root_offset"`
-	RecOff   int64    `json:"record_offset"` // latest record end offset / frontier snapshot offset
-	Journal  int      `json:"journal"`       // commit records after the frontier snapshot (each +100)
-	Gap      bool     `json:"gap,omitempty"` // the first journal record is missing
+	RecOff   int64    `json:"record_offset"`         // latest record end offset / frontier snapshot offset
+	Journal  int      `json:"journal"`               // commit records after the frontier snapshot (each +100)
+	Gap      bool     `json:"gap,omitempty"`         // the first journal record is missing
+	NoSnap   bool     `json:"no_snapshot,omitempty"` // frontier form without a frontier snapshot yet (early run): the journal starts at unit 1
 	CrashAt  int      `json:"crash_at"`
 }
 
 const c17bNS = checkpoint.BisyncCheckpointKeyPrefix + ":0123456789abcdef01234567"
 
 func (scn c17bScenario) want() int64 {
-	p := scn.RecOff
-	if scn.Format == "frontier" && !scn.Gap {
-		p += int64(100 * scn.Journal)
+	// what bisyncStartPoint's rules give for the constructed state
+	p := int64(-1)
+	switch {
+	case scn.Format == "root-only":
+	case scn.Format == "frontier" && scn.NoSnap:
+		if !scn.Gap { // a journal that does not start at unit 1 has no contiguous prefix: root fallback
+			p = scn.RecOff + int64(100*scn.Journal)
+		}
+	case scn.Format == "frontier":
+		p = scn.RecOff
+		if !scn.Gap {
+			p += int64(100 * scn.Journal)
+		}
+	default:
+		p = scn.RecOff
 	}
 	if scn.RootOff > p {
 		p = scn.RootOff
@@ -66,6 +79,7 @@ type c17bObs struct {
 	dump      string
 	writes    int
 	newName   string
+	refused   string // the mode switch was refused with this error (target untouched); o.after is then a start in the namespace's own mode
 }
 
 func c17bOutputCfg(name, runID string, mode config.ReplayMode) syncer.RedisOutputConfig {
@@ -114,14 +128,17 @@ func c17bExec(t *testing.T, scn c17bScenario) (o c17bObs) {
 					return
 				}
 			case "frontier":
-				if fail(checkpoint.SaveBisyncFrontierSnapshot(cli, checkpoint.BisyncFrontierKey(c17bNS), &checkpoint.BisyncFrontierSnapshot{Version: config.Version, RunID: scn.StateID, UnitSeq: 7, Offset: scn.RecOff, MTime: mt})) {
+				base := int64(7)
+				if scn.NoSnap {
+					base = 0
+				} else if fail(checkpoint.SaveBisyncFrontierSnapshot(cli, checkpoint.BisyncFrontierKey(c17bNS), &checkpoint.BisyncFrontierSnapshot{Version: config.Version, RunID: scn.StateID, UnitSeq: 7, Offset: scn.RecOff, MTime: mt})) {
 					return
 				}
 				for j := 1; j <= scn.Journal; j++ {
 					if scn.Gap && j == 1 {
 						continue
 					}
-					seq := int64(7 + j)
+					seq := base + int64(j)
 					rec := &checkpoint.BisyncCommitRecord{Key: checkpoint.BisyncCommitRecordKey(c17bNS, tag, seq), RecordType: "commit", Version: config.Version, RunID: scn.StateID,
 						SyncerID: "s1", UnitSeq: seq, StartOffset: scn.RecOff + int64(100*(j-1)), EndOffset: scn.RecOff + int64(100*j), Slot: 0, Digest: "d", MTime: mt + int64(j)}
 					if _, err := cli.Do("hset", append([]interface{}{rec.Key}, rec.HashArgs()...)...); fail(err) {
@@ -174,32 +191,43 @@ func c17bExec(t *testing.T, scn c17bScenario) (o c17bObs) {
 		// ---- the next start: resolve the namespace, UpdateCheckpoint, StartPoint (bidirectional)
 		time.Sleep(time.Second)
 		seq1 := tgt.NumReqs()
-		o.after = func() c17Pos {
+		nextStart := func(mode string) c17Pos {
 			cli, err := client.NewRedis(outCfg)
 			if err != nil {
 				return c17Pos{Err: "connect: " + err.Error()}
 			}
-			name, err := syncer.VerifResolveBisyncCheckpointName(cli, outCfg, scn.IDs, config.ReplayMode(scn.Desired))
+			name, err := syncer.VerifResolveBisyncCheckpointName(cli, outCfg, scn.IDs, config.ReplayMode(mode))
 			cli.Close()
 			if err != nil {
 				return c17Pos{Err: "resolve namespace: " + err.Error()}
 			}
-			cli, err = client.NewRedis(outCfg)
+			runID, err := syncer.VerifUpdateCheckpoint(outCfg, name, scn.IDs)
 			if err != nil {
-				return c17Pos{Err: "connect: " + err.Error()}
+				return c17Pos{Err: "updateCheckpoint: " + err.Error()}
 			}
-			err = checkpoint.UpdateCheckpoint(cli, name, scn.IDs)
-			cli.Close()
-			if err != nil {
-				return c17Pos{Err: "UpdateCheckpoint: " + err.Error()}
-			}
-			ro := syncer.NewRedisOutput(c17bOutputCfg(name, scn.IDs[0], config.ReplayMode(scn.Desired)))
+			ro := syncer.NewRedisOutput(c17bOutputCfg(name, runID, config.ReplayMode(mode)))
 			sp, err := ro.StartPoint(ctx, scn.IDs)
 			if err != nil {
 				return c17Pos{Err: "StartPoint: " + err.Error()}
 			}
 			return c17Pos{None: sp.IsInitial() || sp.Offset < 0, Offset: sp.Offset, DB: sp.DbId, RunID: sp.RunId}
-		}()
+		}
+		o.after = nextStart(scn.Desired)
+		// The repository deliberately REFUSES to migrate a namespace that has no authoritative recorded state
+		// (root checkpoint only, or a journal without a contiguous prefix; repo test
+		// TestResolveBisyncCheckpointNameRejectsPlainCheckpointFallback). A refusal loses nothing as long as it
+		// a start in the namespace's own mode still finds the position (judged below in place of the refused start).
+		if o.after.Err != "" && (strings.Contains(o.after.Err, "authoritative migration seed") || strings.Contains(o.after.Err, checkpoint.ErrBisyncJournalGap.Error())) {
+			own := scn.ModeMark
+			if own == "" {
+				own = "parallel"
+				if scn.Format == "latest" {
+					own = "sync"
+				}
+			}
+			o.refused = o.after.Err
+			o.after = nextStart(own)
+		}
 		o.recLog = c17Strs(tgt.Log()[seq1:])
 		o.dump = tgt.Dump()
 		if len(tgt.MachineryErrors) > 0 {
@@ -214,7 +242,7 @@ func c17bExec(t *testing.T, scn c17bScenario) (o c17bObs) {
 
 func c17bJudge(scn c17bScenario, o c17bObs) mc.Result {
 	detail := map[string]interface{}{"position_before": map[string]interface{}{"offset": scn.want(), "db": 0}, "position_after_restart": o.after, "operation_requests": o.opLog,
-		"operation_error": o.opErr, "crashed": o.crashed, "requests_processed": o.R, "next_start_requests": o.recLog, "target_after": strings.Split(c17MaskMtime(o.dump), "\n")}
+		"operation_error": o.opErr, "mode_switch_refused": o.refused, "crashed": o.crashed, "requests_processed": o.R, "next_start_requests": o.recLog, "target_after": strings.Split(c17MaskMtime(o.dump), "\n")}
 	if o.machinery != "" {
 		return mc.Result{Verdict: "machinery", Clause: o.machinery, Detail: detail}
 	}
@@ -242,14 +270,20 @@ func c17bScenarios(tier string) []c17bScenario {
 		format  string
 		journal int
 		gap     bool
+		nosnap  bool
 	}
-	shapes := []shape{{"latest", 0, false}, {"frontier", 0, false}, {"frontier", 1, false}, {"frontier", 2, false}, {"frontier", 2, true}}
+	shapes := []shape{{"latest", 0, false, false}, {"frontier", 0, false, false}, {"frontier", 1, false, false}, {"frontier", 2, false, false}, {"frontier", 2, true, false},
+		// frontier form before the first snapshot: journal from unit 1, journal that starts at unit 2, and a namespace with the root checkpoint only
+		{"frontier", 1, false, true}, {"frontier", 2, false, true}, {"frontier", 2, true, true}, {"root-only", 0, false, false}}
 	for _, sh := range shapes {
 		for _, root := range []int64{900, 1000, 1350} { // root checkpoint older than / equal to / newer than the recorded state (1000 [+100 per journal record])
 			for _, sid := range []string{c17IDA, c17IDB} {
 				marks := []string{"sync", ""}
 				desired := []string{"pipeline", "parallel"}
-				if sh.format == "frontier" {
+				if sh.format == "root-only" {
+					marks = []string{"sync", "parallel", ""}
+					desired = []string{"sync", "parallel"}
+				} else if sh.format == "frontier" {
 					marks = []string{"pipeline", "parallel", ""}
 					desired = []string{"sync"}
 					if tier == "thorough" {
@@ -264,8 +298,8 @@ func c17bScenarios(tier string) []c17bScenario {
 						if sid == c17IDB {
 							idn = "previous-id"
 						}
-						lab := fmt.Sprintf("bisync/%s+%djournal(gap=%v)/root=%d/%s/mark=%q", sh.format, sh.journal, sh.gap, root, idn, mk)
-						out = append(out, c17bScenario{Label: lab, Op: "mode-switch", Format: sh.format, ModeMark: mk, Desired: d, StateID: sid, IDs: ids, RootOff: root, RecOff: 1000, Journal: sh.journal, Gap: sh.gap, CrashAt: -1})
+						lab := fmt.Sprintf("bisync/%s+%djournal(gap=%v,snapshot=%v)/root=%d/%s/mark=%q", sh.format, sh.journal, sh.gap, !sh.nosnap, root, idn, mk)
+						out = append(out, c17bScenario{Label: lab, Op: "mode-switch", Format: sh.format, ModeMark: mk, Desired: d, StateID: sid, IDs: ids, RootOff: root, RecOff: 1000, Journal: sh.journal, Gap: sh.gap, NoSnap: sh.nosnap, CrashAt: -1})
 					}
 				}
 			}
